@@ -31,11 +31,14 @@ import (
 )
 
 type Op struct {
-	Op   string `json:"op"` // add | modify | delete | rename | addbin | chmod
+	Op   string `json:"op"` // add | modify | delete | rename | addbin | addlink (a symbolic link, mode 120000) | chmod
 	Path string `json:"path"`
 	To   string `json:"to"`
 	Add  int    `json:"add"`
 	Del  int    `json:"del"`
+	// add: the file is created executable (git prints ` create mode 100755 path`, later ` delete mode 100755 path`);
+	// chmod flips the executable bit (` mode change 100644 => 100755 path` or back)
+	Exec bool `json:"exec"`
 	// filled in by the harness: how git writes this rename ("brace" = dir/{a => b}/x, "arrow" = a => b), "" otherwise
 	Notation string `json:"notation"`
 }
@@ -55,6 +58,10 @@ type Case struct {
 	History []Commit `json:"history"`
 	// Tables (real mode): `coca git -t`, `coca git -a`, `coca git -o` are run as well and their printed tables recorded
 	Tables bool `json:"tables"`
+	// Order: the sequence in which the summaries are requested on ONE commit list in one process (names: team, top,
+	// basic, age, changelog; a name may occur more than once, the last result counts). Empty = the default order.
+	// The Reference has no variable a request could leave anything in: any order must give the same five results.
+	Order []string `json:"order"`
 }
 
 type ChangeFact struct {
@@ -135,6 +142,7 @@ type Record struct {
 	Mode     string       `json:"mode"`
 	History  []Commit     `json:"history"`
 	Facts    []CommitFact `json:"facts"`
+	Order    []string     `json:"order"`
 	Observed Obs          `json:"observed"`
 }
 
@@ -179,10 +187,18 @@ func (r *repo) apply(op Op) {
 	case "add":
 		os.MkdirAll(filepath.Dir(p), 0o755)
 		os.WriteFile(p, []byte(strings.Join(r.newLines(op.Add), "\n")+"\n"), 0o644)
+		if op.Exec {
+			os.Chmod(p, 0o755)
+		}
 	case "addbin":
 		os.MkdirAll(filepath.Dir(p), 0o755)
 		r.seq++
 		os.WriteFile(p, []byte{0, 1, 2, byte(r.seq), 0, 255, 0}, 0o644)
+	case "addlink":
+		os.MkdirAll(filepath.Dir(p), 0o755)
+		if err := os.Symlink("target of the link", p); err != nil {
+			panic("harness: symlink: " + err.Error())
+		}
 	case "modify":
 		b, err := os.ReadFile(p)
 		if err != nil {
@@ -193,14 +209,22 @@ func (r *repo) apply(op Op) {
 			panic("harness: cannot delete that many lines")
 		}
 		ls = append(ls[op.Del:], r.newLines(op.Add)...)
-		os.WriteFile(p, []byte(strings.Join(ls, "\n")+"\n"), 0o644)
+		os.WriteFile(p, []byte(strings.Join(ls, "\n")+"\n"), 0o644) // an existing file keeps its mode bits
 	case "delete":
 		r.git(nil, "rm", "-q", "--", op.Path)
 	case "rename":
 		os.MkdirAll(filepath.Dir(filepath.Join(r.dir, filepath.FromSlash(op.To))), 0o755)
 		r.git(nil, "mv", "--", op.Path, op.To)
 	case "chmod":
-		os.Chmod(p, 0o755)
+		st, err := os.Stat(p)
+		if err != nil {
+			panic("harness: chmod of missing file " + op.Path)
+		}
+		if st.Mode()&0o100 != 0 {
+			os.Chmod(p, 0o644)
+		} else {
+			os.Chmod(p, 0o755)
+		}
 	default:
 		panic("harness: unknown op " + op.Op)
 	}
@@ -349,6 +373,9 @@ func buildSynth(c Case) ([]cocagit.CommitMessage, []CommitFact) {
 			case "addbin":
 				ch.Mode = "create"
 				ch.Added, ch.Deleted = 0, 0
+			case "addlink":
+				ch.Mode = "create"
+				ch.Added, ch.Deleted = 1, 0
 			}
 			cf.Changes = append(cf.Changes, ch)
 			cm.Changes = append(cm.Changes, cocagit.FileChange{Added: ch.Added, Deleted: ch.Deleted, File: ch.File, Mode: ch.Mode})
@@ -363,33 +390,62 @@ func buildSynth(c Case) ([]cocagit.CommitMessage, []CommitFact) {
 
 // ---------------------------------------------------------------- observation
 
-func summaries(o *Obs, msgs []cocagit.CommitMessage) {
-	for _, t := range cocagit.GetTeamSummary(msgs) {
-		o.Team = append(o.Team, TeamObs{t.EntityName, t.AuthorCount, t.RevsCount})
+var defaultOrder = []string{"team", "top", "basic", "age", "changelog"}
+
+func summaries(o *Obs, msgs []cocagit.CommitMessage, order []string) {
+	seen := map[string]bool{}
+	for _, s := range order {
+		seen[s] = true
 	}
-	for _, t := range cocagit.GetTopAuthors(msgs) {
-		o.Top = append(o.Top, TopObs{t.Name, t.CommitCount, t.LineCount})
-	}
-	b := cocagit.BasicSummary(msgs)
-	o.Basic = BasicObs{b.Commits, b.Entities, b.Changes, b.Authors}
-	for _, a := range cocagit.CalculateCodeAge(msgs) {
-		o.Age = append(o.Age, AgeObs{a.EntityName, a.Age.Format("2006-01-02"), int(a.Age.Unix() / 86400)})
-	}
-	cl := cocagit.BuildChangeMap(msgs)
-	for typ, m := range cl {
-		for f, n := range m {
-			o.Changelog = append(o.Changelog, LogObs{typ, f, n})
+	for _, s := range defaultOrder { // every summary is computed at least once
+		if !seen[s] {
+			order = append(order, s)
 		}
 	}
-	sort.Slice(o.Changelog, func(i, j int) bool {
-		if o.Changelog[i].Type != o.Changelog[j].Type {
-			return o.Changelog[i].Type < o.Changelog[j].Type
+	for _, s := range order {
+		switch s {
+		case "team":
+			o.Team = []TeamObs{}
+			for _, t := range cocagit.GetTeamSummary(msgs) {
+				o.Team = append(o.Team, TeamObs{t.EntityName, t.AuthorCount, t.RevsCount})
+			}
+		case "top":
+			o.Top = []TopObs{}
+			for _, t := range cocagit.GetTopAuthors(msgs) {
+				o.Top = append(o.Top, TopObs{t.Name, t.CommitCount, t.LineCount})
+			}
+		case "basic":
+			b := cocagit.BasicSummary(msgs)
+			o.Basic = BasicObs{b.Commits, b.Entities, b.Changes, b.Authors}
+		case "age":
+			o.Age = []AgeObs{}
+			for _, a := range cocagit.CalculateCodeAge(msgs) {
+				o.Age = append(o.Age, AgeObs{a.EntityName, a.Age.Format("2006-01-02"), int(a.Age.Unix() / 86400)})
+			}
+		case "changelog":
+			o.Changelog = []LogObs{}
+			cl := cocagit.BuildChangeMap(msgs)
+			for typ, m := range cl {
+				for f, n := range m {
+					o.Changelog = append(o.Changelog, LogObs{typ, f, n})
+				}
+			}
+			sort.Slice(o.Changelog, func(i, j int) bool {
+				if o.Changelog[i].Type != o.Changelog[j].Type {
+					return o.Changelog[i].Type < o.Changelog[j].Type
+				}
+				return o.Changelog[i].File < o.Changelog[j].File
+			})
+		default:
+			panic("harness: unknown summary " + s)
 		}
-		return o.Changelog[i].File < o.Changelog[j].File
-	})
+	}
 }
 
 func norm(c *Case) {
+	if c.Order == nil {
+		c.Order = []string{}
+	}
 	for i := range c.History {
 		if c.History[i].Ops == nil {
 			c.History[i].Ops = []Op{}
@@ -414,7 +470,7 @@ func one(raw json.RawMessage) interface{} {
 		panic(err)
 	}
 	norm(&c)
-	rec := Record{Case: c.Case, Mode: c.Mode, History: c.History, Facts: []CommitFact{}, Observed: emptyObs()}
+	rec := Record{Case: c.Case, Mode: c.Mode, History: c.History, Facts: []CommitFact{}, Order: c.Order, Observed: emptyObs()}
 	scratch, err := os.MkdirTemp(os.Getenv("VERIF_SCRATCH"), "git-")
 	if err != nil {
 		panic(err)
@@ -460,7 +516,7 @@ func one(raw json.RawMessage) interface{} {
 		}
 		rec.Observed.Commits = append(rec.Observed.Commits, co)
 	}
-	p, msg := lib.Guard(func() { summaries(&rec.Observed, msgs) })
+	p, msg := lib.Guard(func() { summaries(&rec.Observed, msgs, append([]string{}, c.Order...)) })
 	if p {
 		commits := rec.Observed.Commits
 		rec.Observed = emptyObs()
@@ -542,7 +598,7 @@ func abnormal(raw json.RawMessage, timeout bool, stderr string) interface{} {
 	var c Case
 	json.Unmarshal(raw, &c)
 	norm(&c)
-	rec := Record{Case: c.Case, Mode: c.Mode, History: c.History, Facts: []CommitFact{}, Observed: emptyObs()}
+	rec := Record{Case: c.Case, Mode: c.Mode, History: c.History, Facts: []CommitFact{}, Order: c.Order, Observed: emptyObs()}
 	rec.Observed.Panic = true
 	rec.Observed.Note = "process died: " + tailStr(stderr, 300)
 	return rec
